@@ -174,6 +174,26 @@ fn cfg_inventory(cx: &mut Ctx) {
             }
         }
     }
+    // the grammar: the generated parser is excluded above because it is the grammar's image (G1); the grammar itself
+    // must not switch on a parse-affecting feature anywhere (actions, preamble)
+    match std::fs::read_to_string(cx.repo.join("parser/src/python.lalrpop")) {
+        Ok(text) => {
+            let re = regex::Regex::new(r#"cfg(?:_attr)?!?\s*\([^)]*feature\s*=\s*"([a-z-]+)""#).unwrap();
+            let mut n = 0;
+            for (i, line) in text.lines().enumerate() {
+                for c in re.captures_iter(line) {
+                    if PARSE_FEATURES.contains(&&c[1]) {
+                        n += 1;
+                        cx.fail(rule, &format!("{}/unclassified/parser/src/python.lalrpop/{}", rule, &c[1]), &format!("parser/src/python.lalrpop:{}", i + 1), &format!("the grammar switches on the feature `{}`: what is parsed (tree or mandatory ranges) can then differ between feature configurations", &c[1]));
+                    }
+                }
+            }
+            if n == 0 {
+                cx.ok(rule, "parser/src/python.lalrpop: no cfg on a parse-affecting feature");
+            }
+        }
+        Err(e) => cx.anchor_missing(rule, &format!("parser/src/python.lalrpop: {}", e)),
+    }
     cx.unit("source files scanned for cfg sites", files);
     for ((file, feat), n) in &per {
         cx.ok(rule, &format!("{}: {} `{}` site(s)", file, n, feat));
